@@ -343,6 +343,8 @@ class AArch64:
     name = "AArch64"
     comment = None
     STATE, ROUND, SP, LINK = "x0", "x1", "sp", "x30"
+    # AAPCS64: a uint8_t argument defines bits 0..7 of w1 only, "any unused bits have unspecified value": the callee narrows
+    ARG_DEFINED_BITS = 8
     SAVED = ["x%d" % k for k in range(19, 30)]
     SCRATCH = ["x%d" % k for k in range(2, 18)]
 
@@ -1158,6 +1160,26 @@ def rule_rounds(rep, rid, name):
                               isa.name, ", ".join(isa.SAVED)))
         else:
             rep.instance(rid, 1, {"backend": name, "epilogue": "inverse of the prologue; %s, sp and the return address restored" % ", ".join(isa.SAVED)})
+        # ABIs that leave the upper bits of a narrow argument unspecified: the dispatch must not look at them
+        nb = getattr(isa, "ARG_DEFINED_BITS", None)
+        if nb and isa.ROUND:
+            for r in (0, 5, 11):
+                for dirt in (0xABCD00, 0x100, (1 << W) - (1 << nb)):
+                    d = entry(M, r)
+                    d.regs[isa.canon(isa.ROUND)] = d.const(r | dirt)
+                    d.run(0, stop_idx=disp)
+                    lab = d.run(disp, stop_labels=labels)
+                    if lab != blocks[r]:
+                        rep.violation(rid, "%s:dispatch-upper-bits" % name, where(disp),
+                                      "%s ascon_permute: with first_round = %d in the low %d bits of the argument register and other "
+                                      "bits set (%#x) - which the calling convention leaves unspecified for a uint8_t argument - the "
+                                      "dispatch reaches %s instead of the block of round %d" % (isa.name, r, nb, r | dirt, lab, r))
+                        break
+                else:
+                    continue
+                break
+            else:
+                rep.instance(rid, 1, {"backend": name, "argument_narrowing": "upper %d bits of first_round ignored" % (W - nb)})
         # first_round >= 12: identity
         for r in (12, 13, 255):
             d = entry(M, r)
